@@ -3,8 +3,10 @@ import math
 import struct
 from fractions import Fraction
 
-EPS = {"f64": Fraction(1, 1 << 52), "f32": Fraction(1, 1 << 23)}
-FEPS = {"f64": 2.0 ** -52, "f32": 2.0 ** -23}
+# "q": the exact-rational element type of the harness (harness/src/rat.rs); numbers are Fractions (None = NaN),
+# machine epsilon as for f64
+EPS = {"f64": Fraction(1, 1 << 52), "f32": Fraction(1, 1 << 23), "q": Fraction(1, 1 << 52)}
+FEPS = {"f64": 2.0 ** -52, "f32": 2.0 ** -23, "q": 2.0 ** -52}
 
 
 def f32(x):
@@ -12,7 +14,30 @@ def f32(x):
 
 
 def rnd(ty, x):
+    if ty == "q":
+        return x
     return f32(x) if ty == "f32" else float(x)
+
+
+def enc(ty, x):
+    """token of a number in a case file of the implementation side"""
+    if ty == "q":
+        return "N" if x is None else qtok(Fraction(x))
+    return "%x" % bits(ty, x)
+
+
+def dec(ty, t):
+    if ty == "q":
+        return parse_tok(t)
+    return from_bits(ty, int(t, 16))
+
+
+def key(ty, x):
+    if ty == "q":
+        if x is None or (isinstance(x, float) and (x != x or x in (math.inf, -math.inf))):
+            return None
+        return Fraction(x)
+    return bits(ty, x)
 
 
 def bits(ty, x):
@@ -70,6 +95,10 @@ def tok(x):
     """model token of a float: exact rational in hex or N"""
     if isinstance(x, int):
         return ("-%x/1" % -x) if x < 0 else ("%x/1" % x)
+    if x is None:
+        return "N"
+    if isinstance(x, Fraction):
+        return qtok(x)
     q = exact(x)
     if q is None:
         return "N"
